@@ -105,7 +105,7 @@ def build_batches(chk, langs, rng):
     thorough = chk.tier == "thorough"
     corpus = collect_corpus(langs, thorough, 120_000 if not thorough else 400_000)
     hand = handwritten(langs)
-    n_mut_total = 2600 if not thorough else 46_000
+    n_mut_total = 2600 if not thorough else 38_000
     batch_size = 70 if not thorough else 110
     # originals
     originals = {l: corpus[l] + hand[l] for l in langs}
@@ -164,17 +164,13 @@ def build_batches(chk, langs, rng):
             add_batch([l], [rng.choice(pool)], mock=(j % 2 == 0), quiet=True, tag="single-file")
     if thorough:
         # one very large project (> config.MAX_ROWS = 400 000 rows) so that the GIR loader exports more than one
-        # bundle mid-run; ~40 source bytes per row was measured on the corpora. Scheduled first: it is one process.
+        # bundle mid-run. lian silently analyses only the first 1000 units of a project (loader.get_all_unit_info
+        # tests hasattr(options, "benchmark"), which always holds), so the project is made of the 600 largest files.
+        # Scheduled first: it is one process.
         l = "python" if "python" in langs else langs[0]
-        pool = [s for s in originals[l] + mutants[l] if len(s.data) < 60_000]
-        rng.shuffle(pool)
-        picked, total = [], 0
-        for s in pool:
-            picked.append(s)
-            total += len(s.data)
-            if total > 22_000_000:
-                break
-        add_batch([l], picked, mock=True, quiet=True, nested=True, tag="huge-project")
+        pool = sorted((s for s in originals[l] + mutants[l] if len(s.data) < 150_000),
+                      key=lambda s: -len(s.data))
+        add_batch([l], pool[:600], mock=True, quiet=True, nested=True, tag="huge-project")
         batches.insert(0, batches.pop())
     return batches
 
@@ -725,7 +721,7 @@ def main():
     for name, fn in (("run_all", lambda: d.run_all(batches)), ("confirm_crashes", d.confirm_crashes),
                      ("cli_confirm", lambda: d.cli_confirm(6 if chk.tier == "quick" else 40)),
                      ("settle_structure", d.settle_structure),
-                     ("cli_crosscheck", lambda: d.cli_crosscheck(batches, 6 if chk.tier == "quick" else 40))):
+                     ("cli_crosscheck", lambda: d.cli_crosscheck(batches, 6 if chk.tier == "quick" else 24))):
         t = time.time()
         fn()
         phases[name] = round(time.time() - t, 1)
@@ -760,7 +756,9 @@ def main():
     chk.require("units with a %unit_init", 300 if not thorough else 9_000)
     chk.require("files of kind mutant that emitted GIR", 300 if not thorough else 12_000)
     chk.require("distinct operations seen", 60)
-    chk.require("true CLI bundle identical to the forked monitored run's bundle", 3 if not thorough else 20)
+    if thorough:
+        chk.require("projects whose GIR was exported in more than one bundle", 1)
+    chk.require("true CLI bundle identical to the forked monitored run's bundle", 3 if not thorough else 12)
     for l in langs:
         chk.require(f"files that emitted GIR [{l}]", 15 if not thorough else 300)
     chk.assumptions += [
